@@ -143,6 +143,12 @@ package types
 //@   same_as x/auth/keeper.Keeper.GetCoins
 //@ iface func (ak AuthKeeper) SendCoins(ctx sdk.Ctx, fromAddr sdk.Address, toAddr sdk.Address, amt sdk.Coins) (err sdk.Error)
 //@   same_as x/auth/keeper.Keeper.SendCoins
+// SetModuleAccount stores the account object (amino + KVStore: assumed, like x/auth/keeper.Keeper.SetAccount)
+//@ iface func (ak AuthKeeper) SetModuleAccount(ctx sdk.Ctx, macc authexported.ModuleAccountI)
+//@   mode value
+//@   requires macc != nil
+//@   modifies auth.bal[acct.addr[macc]], auth.has[acct.addr[macc]]
+//@   ensures auth.bal[acct.addr[macc]] == acct.coins[macc] && auth.has[acct.addr[macc]]
 //@ iface func (ak AuthKeeper) HasCoins(ctx sdk.Ctx, addr sdk.Address, amt sdk.Coins) (r bool)
 //@   mode value
 //@   uses bankinv
